@@ -21,6 +21,10 @@ func (m *Manager) DAIncluderLoop(ctx context.Context, errCh chan<- error) {
 		}
 		currentDAIncluded := m.GetDAIncludedHeight()
 		for {
+			// the node is stopping: do not start on the next height
+			if ctx.Err() != nil {
+				return
+			}
 			nextHeight := currentDAIncluded + 1
 			daIncluded, err := m.IsDAIncluded(ctx, nextHeight)
 			if err != nil {
